@@ -126,8 +126,8 @@ let rec order_idx pat n seed : int list option =
 
 let rec take m l = if m <= 0 then [] else match l with [] -> [] | x :: r -> x :: take (m - 1) r
 
-(* which ranks (of len keys) to remove, in order; depths only for s/p *)
-let removal_idx ord len keep seed (depths : unit -> int array) : int list =
+(* which ranks (of len keys) to remove, in order; metric (depths for s/p, depth + height for P) only for s/p/P *)
+let removal_idx ord len keep seed (metric : char -> int array) : int list =
   let m = len - keep in
   if m <= 0 || keep < 0 then [] else
   let first pat = match order_idx pat len seed with Some l -> take m l | None -> [] in
@@ -140,16 +140,16 @@ let removal_idx ord len keep seed (depths : unit -> int array) : int list =
     for j = 0 to keep - 1 do kept.(j * len / keep) <- true done;
     let out = List.filter (fun i -> not kept.(i)) (List.init len (fun i -> i)) in
     if ord = 'E' then List.rev out else out
-  | 's' | 'p' ->
-    let d = depths () in
+  | 's' | 'p' | 'P' ->
+    let d = metric ord in
     let idx = List.init len (fun i -> i) in
-    let c = if ord = 's' then (fun a b -> compare d.(a) d.(b)) else (fun a b -> compare d.(b) d.(a)) in
+    let c = if ord = 'p' then (fun a b -> compare d.(b) d.(a)) else (fun a b -> compare d.(a) d.(b)) in
     take m (List.stable_sort c idx)
   | _ -> []
 
 let max_big_keys = 20000
 let int_opt s = try Some (int_of_string s) with _ -> None
-let ord_letters = "lhoibBreEsp"
+let ord_letters = "lhoibBreEspP"
 let big_val k seed = ((((k * 7 + seed) mod 1000) + 1000) mod 1000) + 1
 
 type macro = MB of char * int * int * int * int | MD of char * int * int | MQ of int | MBad | MPrim
@@ -166,7 +166,7 @@ let parse_macro natural op =
      | _ -> MBad)
   | 'D' ->
     (match String.split_on_char ':' (String.sub op 1 (String.length op - 1)) with
-     | [o; keep; seed] when String.length o = 1 && String.contains ord_letters o.[0] && not (natural && (o.[0] = 's' || o.[0] = 'p')) ->
+     | [o; keep; seed] when String.length o = 1 && String.contains ord_letters o.[0] && not (natural && (o.[0] = 's' || o.[0] = 'p' || o.[0] = 'P')) ->
        (match int_opt keep, int_opt seed with
         | Some keep, Some seed -> MD (o.[0], keep, seed)
         | _ -> MBad)
@@ -311,15 +311,21 @@ let probe_model zcmp m s =
     "nfwd=" ^ i (List.length fwd); "dfwd=" ^ digest_of fwd; "dvfwd=" ^ digest_of vfwd;
     "nbwd=" ^ i (List.length bwd); "dbwd=" ^ digest_of bwd ]
 
-(* the number of nodes on the path to each key, in in-order (what the harness measures as the
-   comparator calls of GetOK) *)
-let depths_of_model m : int array =
+(* per key in in-order: the number of nodes on the path to it (what the harness measures as the
+   comparator calls of GetOK), or for P the largest such number among the keys of its subtree *)
+let metric_of_model m ord : int array =
   let out = ref [] in
   let rec go d = function
-    | M.Leaf -> ()
-    | M.Node (l, _, r) -> go (d + 1) l; out := d :: !out; go (d + 1) r in
-  (match m with Some t -> go 1 t.M.root | None -> ());
-  Array.of_list (List.rev !out)
+    | M.Leaf -> 0
+    | M.Node (l, _, r) ->
+      let hl = go (d + 1) l in
+      let cell = ref 0 in
+      out := cell :: !out;
+      let hr = go (d + 1) r in
+      let deepest = max d (max hl hr) in
+      cell := (if ord = 'P' then deepest else d); deepest in
+  (match m with Some t -> ignore (go 1 t.M.root) | None -> ());
+  Array.of_list (List.rev_map (fun c -> !c) !out)
 
 (* B, D, Q on the model of a Map[int,int]: Some (item, edited) *)
 let int_macro natural cf m op =
@@ -340,7 +346,7 @@ let int_macro natural cf m op =
     let cnt = ref 0 in
     List.iter (fun j ->
       let (m', b) = ok (M.mdelete zcmp 0 !m keys.(j)) in m := m'; if b then incr cnt)
-      (removal_idx ord (Array.length keys) keep seed (fun () -> depths_of_model !m));
+      (removal_idx ord (Array.length keys) keep seed (metric_of_model !m));
     Some ("d" ^ string_of_int !cnt, true)
   | MQ s -> Some (probe_model zcmp !m s, false)
 
@@ -509,10 +515,10 @@ let int_smacro natural cf (st : sstate) zero (l : (int * int) list ref) op it =
     if len >= 0 then begin
       let mrem = if keep < 0 then 0 else max 0 (len - keep) in
       if it <> "d" ^ string_of_int mrem then failop (Printf.sprintf "Delete reported %s present keys, the reference map gives %d" it mrem);
-      if st.sup || ((ord = 's' || ord = 'p') && mrem > 0) then begin st.sup <- true; st.card <- len - mrem end
+      if st.sup || ((ord = 's' || ord = 'p' || ord = 'P') && mrem > 0) then begin st.sup <- true; st.card <- len - mrem end
       else begin
         let keys = Array.of_list (List.map fst !l) in
-        let idx = removal_idx ord len keep seed (fun () -> [||]) in
+        let idx = removal_idx ord len keep seed (fun _ -> [||]) in
         l := Mp.bindings (List.fold_left (fun m j -> Mp.remove keys.(j) m) (to_map ()) idx)
       end
     end;
